@@ -404,6 +404,33 @@ class Facts:
                 st.append(c)
         return out
 
+    def with_helpers(self, path, depth=2, stop=()):
+        """path, its closures, and the functions of the same crate it calls (their closures too), `depth` call levels
+        deep. For rules of the form "f does X": a maintainer may move X into a helper that f calls. `stop`: paths
+        (or prefixes) not to descend into (functions that are anchors of their own)."""
+        crate = path.lstrip("<").split("::", 1)[0]
+        out, seen = [], set()
+        frontier = [(path, 0)]
+        while frontier:
+            p, lvl = frontier.pop(0)
+            for q in self.with_closures(p):
+                if q in seen:
+                    continue
+                seen.add(q)
+                out.append(q)
+                f = self.fns.get(q)
+                if f is None or not f.blocks or lvl >= depth:
+                    continue
+                for b, t in f.calls():
+                    for tg in self.call_targets(f, t):
+                        g = self.fns.get(tg)
+                        if g is None or not g.blocks or tg in seen:
+                            continue
+                        if tg.lstrip("<").split("::", 1)[0] != crate or any(tg == s_ or tg.startswith(s_) for s_ in stop):
+                            continue
+                        frontier.append((tg, lvl + 1))
+        return out
+
     # ---- call graph
     def impl_methods(self, trait, name):
         out = []
